@@ -46,7 +46,8 @@ Lemma step_spec : forall f c f' out, FInv f -> call_ok c -> step f c = (f', out)
   FInv f' /\
   f_high f' = f_high f /\ f_low f' = f_low f /\ f_timeout f' = f_timeout f /\
   f_size f' <= f_size f + p_consumed (snd ro) /\ p_consumed (snd ro) <= zlen (c_pl c) /\
-  (forall x, In x (f_rs f') -> x = fst ro \/ x = r \/ In x (f_rs f)) /\
+  (forall x, In x (f_rs f') ->
+     (x = fst ro /\ p_done (snd ro) = false /\ p_err (snd ro) = false) \/ x = r \/ In x (f_rs f)) /\
   (f_size f' <= f_high f' \/ f_size f' <= f_low f' \/ f_rs f' = []) /\
   (f_size f + zlen (c_pl c) <= f_high f ->
      (forall j, j <> c_id c -> lookup j (f_rs f') = lookup j (f_rs f)) /\
@@ -71,7 +72,7 @@ Proof.
   split; [exact Eo|]. split; [exact Pp|]. split; [exact I'|].
   split; [congruence|]. split; [congruence|]. split; [congruence|].
   split; [lia|]. split; [lia|]. split.
-  - intros x Hx. destruct (In' x Hx) as [->|Hx1]; [now left|]. right. destruct (In1 x Hx1); auto.
+  - intros x Hx. destruct (In' x Hx) as [Hx0|Hx1]; [now left|]. right. destruct (In1 x Hx1); auto.
   - split; [exact Post|]. intros Hbud.
     destruct NoEv as [Lo Lk]; [lia|]. rewrite Rid in *. split; [|exact Lk].
     intros j Hj. rewrite Lo by auto. apply Lo1. auto.
